@@ -138,6 +138,17 @@ def programs(seed, n, syms=gen.SYMS, tids=None):
         steps.append({"op": "copy", "in": [lazy], "out": ["lz"], "args": {}})
         steps.append({"op": "sync_charges", "in": ["lz"], "out": ["d1"], "args": {}})
         derived = ["d1"]
+        more = [("neg", {}), ("smul", {"k": [2, 0]}), ("conj", {}), ("dagger", {}), ("expand_dims", {"axis": 0}), ("phase_global", {})]
+        if rank:
+            pm = list(range(rank))
+            rng.shuffle(pm)
+            more += [("transpose", {"axes": pm}), ("phase_flip", {"axs": [rng.randrange(rank)]}), ("phase_transpose", {"axes": pm})]
+        if rank >= 2:
+            more += [("fuse", {"groups": [[0, 1]]})]
+        rng.shuffle(more)
+        for j, (op, a) in enumerate(more[:4]):
+            steps.append({"op": op, "in": ["lz"], "out": [f"dm{j}"], "args": a})
+            derived.append(f"dm{j}")
         if rank == 2:
             # (the factors themselves are not unique - a lazy and a synchronised input may give Q's differing by signs -
             # so each derived array is compared with a copy of ITSELF taken before the source is touched)
